@@ -93,13 +93,39 @@ class Driver:
             raise self.isl['errors'].TransactionError('current transaction is aborted')
         if unit.tx_id is not None:
             self.txid = unit.tx_id
-            self.in_tx = True
-            self.in_tx_config = self.config
-            self.in_tx_modaliases = self.modaliases
-            self.in_tx_root_user_schema = self.db_user_schema
-            self.in_tx_user_schema = self.db_user_schema
-        if self.in_tx and unit.user_schema is not None:
+            self.start_tx()
+        if self.in_tx:
+            self.apply_in_tx(unit)
+
+    # dbview.pyx:1036-1051  start_tx()
+    def start_tx(self):
+        self.in_tx = True
+        self.in_tx_config = self.config
+        self.in_tx_modaliases = self.modaliases
+        self.in_tx_root_user_schema = self.db_user_schema
+        self.in_tx_user_schema = self.db_user_schema
+
+    # dbview.pyx:1053-1071  _apply_in_tx()
+    def apply_in_tx(self, unit):
+        if unit.user_schema is not None:
             self.in_tx_user_schema = pickle.loads(unit.user_schema)
+
+    # dbview.pyx:1073-1080  start_implicit()
+    def start_implicit(self, unit):
+        if self.tx_error:
+            raise self.isl['errors'].TransactionError('current transaction is aborted')
+        if not self.in_tx:
+            self.start_tx()
+        self.apply_in_tx(unit)
+
+    # dbview.pyx:1166-1206  commit_implicit_tx()
+    def commit_implicit_tx(self, user_schema):
+        assert self.in_tx
+        self.config = self.in_tx_config
+        self.modaliases = self.in_tx_modaliases
+        if user_schema is not None:
+            self.db_user_schema = pickle.loads(user_schema)
+        self.reset_tx_state()
 
     # dbview.pyx:1077-1160  on_success()
     def on_success(self, unit):
@@ -118,6 +144,10 @@ class Driver:
             self.reset_tx_state()
         elif unit.tx_rollback:
             self.reset_tx_state()
+
+
+class _BackendFailure(Exception):
+    pass
 
 
 class Model:
@@ -275,16 +305,14 @@ class World:
         ql, kind, arg = self.draw_stmt()
         stmts, kinds = [ql], [(kind, arg)]
         if self.cfg['pscript'] and t.chance(self.cfg['pscript'], 100, 'script'):
-            # scripts are only generated with a transaction-control statement in
-            # them (always rejected): executing accepted scripts needs the
-            # implicit-transaction path of execute.pyx, which is not modelled
-            ql2, kind2, arg2 = self.draw_stmt()
-            tcl = ('start', 'commit', 'rollback', 'declare', 'release', 'rollback_to')
-            if kind in tcl or kind2 in tcl:
+            for _ in range(1 + t.draw(2, 'script_len')):
+                ql2, kind2, arg2 = self.draw_stmt()
                 if t.draw(2, 'script_order'):
-                    stmts, kinds = [ql2, ql], [(kind2, arg2), (kind, arg)]
+                    stmts.insert(0, ql2)
+                    kinds.insert(0, (kind2, arg2))
                 else:
-                    stmts, kinds = [ql, ql2], [(kind, arg), (kind2, arg2)]
+                    stmts.append(ql2)
+                    kinds.append((kind2, arg2))
         return stmts, kinds
 
     # -- model: would PostgreSQL accept it? -------------------------------------------
@@ -436,7 +464,11 @@ class World:
             dv.live = dv.live_for = dv.last_comp_state = None
         return ug
 
+    TCL = ('start', 'commit', 'rollback', 'declare', 'release', 'rollback_to')
+
     def one_message(self, stmts, kinds):
+        if len(stmts) > 1 and not any(k in self.TCL for k, _ in kinds):
+            return self.one_script(stmts, kinds)
         isl, dv, m, t = self.isl, self.dv, self.m, self.tape
         errors = isl['errors']
         is_script = len(stmts) > 1
@@ -554,6 +586,147 @@ class World:
         else:
             if status == 'failed':
                 self.faults['backend_failure'] += 1
+
+    def clone_model(self):
+        m = self.m
+        m2 = Model(m.base)
+        m2.in_tx, m2.err, m2.cur, m2.state0, m2.sps = m.in_tx, m.err, m.cur, m.state0, list(m.sps)
+        return m2
+
+    def one_script(self, stmts, kinds):
+        """A multi-statement message without transaction control: compiled as
+        one unit group; executed by execute.pyx execute_script(): inside an
+        explicit transaction statement by statement, outside one in an
+        implicit transaction that commits at the end or not at all."""
+        isl, dv, t = self.isl, self.dv, self.tape
+        errors = isl['errors']
+        m = self.m
+        where = 'aborted' if (m.in_tx and m.err) else 'block' if m.in_tx else 'outside'
+        if m.in_tx:
+            self.in_block_steps += 1
+        befail = bool(self.cfg['pbefail']) and t.chance(self.cfg['pbefail'], 100, 'backend_fail')
+        fail_at = t.draw(len(stmts), 'script_fail_at') if befail else None
+        label = self.describe(kinds)
+
+        # what PostgreSQL-style semantics say, statement by statement
+        m2 = self.clone_model()
+        accept = not (m.in_tx and m.err)
+        before = []
+        prefix_models = []
+        self.m = m2
+        try:
+            for (kind, arg), ql in zip(kinds, stmts):
+                before.append(m2.current())
+                prefix_models.append(None)
+                if accept and self.model_accepts(kind, arg, ql):
+                    self.model_apply(kind, arg, ql)
+                else:
+                    accept = False
+        finally:
+            self.m = m
+
+        isl['observed'].clear()
+        try:
+            ug = self.compile_message(stmts)
+            if dv.tx_error:
+                raise errors.TransactionError('current transaction is aborted')   # len(ug) > 1
+            compiled = True
+        except HarnessError:
+            raise
+        except Exception as e:
+            if 'failed to lookup' in str(e):
+                self.violate('T5', self.sig(f'sync-lookup-failed:{where}'),
+                             f'{label}: compiler raised {e!r} for txid={dv.txid}; history: {self.hist}')
+                return
+            compiled = False
+            rej = type(e).__name__
+            if dv.in_tx:
+                dv.tx_error = True
+        if not compiled:
+            self.hist.append(f'[{label}]!rejected')
+            self.ev('script', label, 'rejected', where)
+            self.probes[f'cell:script:{where}:rejected'] += 1
+            self.faults['compile_rejection'] += 1
+            if accept:
+                self.violate('T2', self.sig(f'rejected-valid:{where}:script'),
+                             f'script [{label}] was rejected at compile time ({rej}) although every statement '
+                             f'is valid where it stands; history: {self.hist}')
+                return
+            if m.in_tx:
+                m.err = True
+            return
+        if not accept:
+            self.violate('T2', self.sig(f'accepted-invalid:{where}:script'),
+                         f'script [{label}] compiled although PostgreSQL-style semantics reject one of its '
+                         f'statements; history: {self.hist}')
+            return
+        if len(ug) != len(stmts):
+            self.violate('T3', 'script-unit-count', f'script [{label}] compiled into {len(ug)} units')
+            return
+        # T1: every query of the script sees the effect of the statements before it
+        obs = list(isl['observed'])
+        qi = 0
+        for i, (kind, arg) in enumerate(kinds):
+            if kind != 'query':
+                continue
+            if qi >= len(obs):
+                raise HarnessError('script query compiled without observation')
+            tag, al, cf = obs[qi]
+            qi += 1
+            exp = before[i]
+            if (tag, al, cf) != (exp[0][0], exp[1], exp[2]):
+                what = 'schema' if tag != exp[0][0] else 'aliases' if al != exp[1] else 'config'
+                self.violate('T1', self.sig(f'visible-{what}:{where}:script'),
+                             f'statement {i + 1} of script [{label}] was compiled against schema={tag} '
+                             f'aliases={dict(al)} config={dict(cf)}; expected schema={exp[0][0]} '
+                             f'aliases={dict(exp[1])} config={dict(exp[2])}; history: {self.hist}')
+                return
+        for unit in ug:
+            if unit.tx_id is not None or unit.tx_commit or unit.tx_rollback or unit.tx_savepoint_declare \
+                    or unit.tx_savepoint_rollback:
+                self.violate('T3', 'script-unit-carries-transaction-control',
+                             f'script [{label}]: a unit carries transaction-control flags')
+                return
+
+        # ---- execute_script (execute.pyx:441-660) ----
+        was_in_tx = dv.in_tx
+        user_schema = None
+        failed = False
+        try:
+            for i, unit in enumerate(ug):
+                dv.start_implicit(unit)
+                if unit.user_schema:
+                    user_schema = unit.user_schema
+                if fail_at == i:
+                    raise _BackendFailure()
+                for op in unit.config_ops:
+                    dv.set_config(op.apply(dv.get_config()))
+                dv.on_success(unit)
+        except _BackendFailure:
+            failed = True
+            if dv.in_tx:
+                dv.tx_error = True                 # on_error()
+            if not was_in_tx and dv.in_tx:
+                dv.reset_tx_state()                # abort_tx(): the implicit transaction is gone
+        if failed:
+            self.faults['backend_failure'] += 1
+            self.hist.append(f'[{label}]!failed@{fail_at + 1}')
+            self.ev('script', label, 'failed', where)
+            self.probes[f'cell:script:{where}:failed'] += 1
+            if m.in_tx:
+                # the statements before the failing one took effect in the
+                # (now aborted) transaction
+                for (kind, arg), ql in list(zip(kinds, stmts))[:fail_at]:
+                    self.model_apply(kind, arg, ql)
+                m.err = True
+            return
+        if not was_in_tx:
+            dv.commit_implicit_tx(user_schema)
+        self.hist.append(f'[{label}]')
+        self.ev('script', label, 'ok', where)
+        self.probes[f'cell:script:{where}:ok'] += 1
+        m.base, m.cur = m2.base, m2.cur
+        self.check_baseline('script', kinds)
 
     def describe(self, kinds):
         return ' ; '.join(f'{k} {a}'.strip() for k, a in kinds)
